@@ -1296,7 +1296,7 @@ func runC17(c *Ctx) {
 	r.Rule = "types: generated MRO source (2 filetypes, 5 fixed + N random/derived structs; arrays up to 3 dims, typed maps of arrays, arrays of maps, structs of structs) compiled by the real compiler; values: type-directed valid JSON, one or two near-miss mutations at random positions (number-as-string, float-for-int, deeper/shallower nesting, missing/extra member, illegal map key, null, other value, out-of-range int, object/array swap), values valid for an assignable source type; rendered compact or with random whitespace and string escapes. Each case: real IsValidJson/FilterJson (+ second FilterJson, + IsValidJson of the result) vs Lean check/filter (verdict enums, output trees with sorted members); monitors on the real code: idempotence, only-drops, null accepted, filter-valid-of-assignable; assignability: full builtin x user table and all ordered pairs of a universe's types vs Lean, reflexivity, array/map/struct component rules. non-trivial = filter output differs from its input, or validation is not clean although the root has the declared container shape; distinct = distinct (type, JSON text)"
 	nUniverses, perUniverse := 16, 5000
 	if c.Thorough {
-		nUniverses, perUniverse = 125, 14000
+		nUniverses, perUniverse = 100, 14000
 	}
 
 	// ---- corpus: lines `<mro type>\t<json text>` evaluated in the fixed universe ----
@@ -1332,6 +1332,11 @@ func runC17(c *Ctx) {
 		nnum = 60000
 	}
 	c17Numerals(c, fixedU, nnum)
+	nbytes := 4000
+	if c.Thorough {
+		nbytes = 60000
+	}
+	c17ParseBytes(c, nbytes)
 
 	for ui := 0; ui < nUniverses; ui++ {
 		u := fixedU
@@ -1439,10 +1444,11 @@ func c17RunCases(c *Ctx, cases []*c17Case) {
 		for _, cs := range cases[lo:hi] {
 			reqs = append(reqs, []string{"C17.case", cs.t.enc(), cs.v.encModel()})
 			reqs = append(reqs, []string{"C17.caser", cs.t.enc(), cs.v.encModel()})
+			reqs = append(reqs, []string{"C17.filterb", cs.t.enc(), hx(string(cs.text))})
 		}
 		reps := c.Drv.AskBatch(reqs)
 		for i, cs := range cases[lo:hi] {
-			c17Judge(c, cs, reps[2*i]+"\x01"+reps[2*i+1], true)
+			c17Judge(c, cs, reps[3*i]+"\x01"+reps[3*i+1]+"\x02"+reps[3*i+2], true)
 		}
 	}
 }
@@ -1450,7 +1456,8 @@ func c17RunCases(c *Ctx, cases []*c17Case) {
 // c17AskBoth: the replies of the exact-decimal model and of the rounded-numeral model.
 func c17AskBoth(c *Ctx, cs *c17Case) string {
 	return c.Drv.Ask("C17.case", cs.t.enc(), cs.v.encModel()) + "\x01" +
-		c.Drv.Ask("C17.caser", cs.t.enc(), cs.v.encModel())
+		c.Drv.Ask("C17.caser", cs.t.enc(), cs.v.encModel()) + "\x02" +
+		c.Drv.Ask("C17.filterb", cs.t.enc(), hx(string(cs.text)))
 }
 
 // c17Judge compares one case; returns the keys of the failures found.
@@ -1472,7 +1479,10 @@ func c17Judge(c *Ctx, cs *c17Case, reply string, report bool) []string {
 		fail(Violation{Kind: "property", Key: "C17:panic", What: "IsValidJson/FilterJson panicked: " + g.panic})
 		return fails
 	}
-	replyR := ""
+	replyR, replyB := "", ""
+	if i := strings.IndexByte(reply, 2); i >= 0 {
+		reply, replyB = reply[:i], reply[i+1:]
+	}
 	if i := strings.IndexByte(reply, 1); i >= 0 {
 		reply, replyR = reply[:i], reply[i+1:]
 	}
@@ -1593,6 +1603,11 @@ func c17Judge(c *Ctx, cs *c17Case, reply string, report bool) []string {
 				What: fmt.Sprintf("IsValidJson of the filtered value differs from the rounded-numeral model (%s vs %s)", g.check2, tr[2]),
 				Impl: g.check2, Model: tr[2], Broken: "correspondence C17.caser (Martian.TypesR.check)"})
 		}
+	}
+	// ---- BYTES: the returned message, byte for byte, vs the byte-level model of the splicing
+	//      (Martian.JsonBytes.filterBytes: fast path returns the input slice, otherwise re-encoding) ----
+	if replyB != "" {
+		c17JudgeBytes(cs, &g, replyB, report, r, fail)
 	}
 	// ---- martian/core: LazyArgumentMap.Path("", …) = LazyArgumentMap.filter(dest) ----
 	// Same value as dest.FilterJson of the object (struct: declared members only; typed
